@@ -322,7 +322,7 @@ func monitorFirstUse(t *testing.T, r *vh.Run) {
 	results := make([]result, n)
 	vh.Workers(n, func(i int) {
 		res := &results[i]
-		f, err := os.CreateTemp("", "c02-firstuse-*.json")
+		f, err := os.CreateTemp(os.Getenv("VERIF_WORK"), "c02-firstuse-*.json")
 		if err != nil {
 			res.err = err.Error()
 			return
